@@ -40,32 +40,44 @@ fn main() {
         }
     }
     // panics inside the code under test are outcomes, not noise
-    std::panic::set_hook(Box::new(|_| {}));
+    std::panic::set_hook(Box::new(|info| {
+        let loc = info.location().map(|l| format!("{}:{}", l.file(), l.line())).unwrap_or_default();
+        let msg = info.payload().downcast_ref::<&str>().map(|s| s.to_string())
+            .or_else(|| info.payload().downcast_ref::<String>().cloned()).unwrap_or_default();
+        if let Ok(mut g) = util::LAST_PANIC.lock() { *g = format!("'{}' at {}", msg, loc); }
+    }));
     let mut out = util::Out::new();
+    let stream = args[1].clone();
+    let r = std::panic::catch_unwind(std::panic::AssertUnwindSafe(|| run_stream(&mut out, &args, seed, &tier, &rest)));
+    if r.is_err() { out.uncaught_panic(&stream); }
+    out.flush();
+}
+
+fn run_stream(out: &mut util::Out, args: &[String], seed: u64, tier: &str, rest: &[String]) {
+    let tier = tier.to_string();
     match args[1].as_str() {
-        "atoms" => s_atoms::run(&mut out, seed, &tier),
-        "terms" => s_terms::run(&mut out, seed, &tier),
-        "topology" => s_topology::run(&mut out, seed, &tier),
-        "matrix" => s_matrix::run(&mut out, seed, &tier),
-        "perceive" => s_perceive::run(&mut out, seed, &tier),
-        "ff" => s_ff::run(&mut out, seed, &tier),
-        "sd" => s_sd::run(&mut out, seed, &tier),
-        "trace" => s_trace::run(&mut out, &rest[0]),
-        "why" => s_trace::why_abort(&mut out),
-        "rigid" => s_rigid::run(&mut out, seed, &tier),
-        "fragments" => s_fragments::run(&mut out, seed, &tier),
-        "robust" => s_robust::run(&mut out, seed, &tier),
-        "cli" => s_cli::run(&mut out, seed, &tier),
-        "build3d" => s_build3d::run(&mut out, seed, &tier),
-        "wrapper" => s_wrapper::run(&mut out, seed, &tier),
-        "repro" => s_repro::run(&mut out, seed, &tier),
-        "params" => s_params::run(&mut out, seed, &tier),
-        "build" => s_build::run(&mut out, seed, &tier),
-        "opt" => s_opt::run(&mut out, seed, &tier),
-        "history" => s_history::run(&mut out, seed, &tier),
-        "xyz-write" => s_xyz::run_write(&mut out, seed, &tier),
-        "xyz-read" => s_xyz::run_read(&mut out, seed, &tier),
+        "atoms" => s_atoms::run(out, seed, &tier),
+        "terms" => s_terms::run(out, seed, &tier),
+        "topology" => s_topology::run(out, seed, &tier),
+        "matrix" => s_matrix::run(out, seed, &tier),
+        "perceive" => s_perceive::run(out, seed, &tier),
+        "ff" => s_ff::run(out, seed, &tier),
+        "sd" => s_sd::run(out, seed, &tier),
+        "trace" => s_trace::run(out, &rest[0]),
+        "why" => s_trace::why_abort(out),
+        "rigid" => s_rigid::run(out, seed, &tier),
+        "fragments" => s_fragments::run(out, seed, &tier),
+        "robust" => s_robust::run(out, seed, &tier),
+        "cli" => s_cli::run(out, seed, &tier),
+        "build3d" => s_build3d::run(out, seed, &tier),
+        "wrapper" => s_wrapper::run(out, seed, &tier),
+        "repro" => s_repro::run(out, seed, &tier),
+        "params" => s_params::run(out, seed, &tier),
+        "build" => s_build::run(out, seed, &tier),
+        "opt" => s_opt::run(out, seed, &tier),
+        "history" => s_history::run(out, seed, &tier),
+        "xyz-write" => s_xyz::run_write(out, seed, &tier),
+        "xyz-read" => s_xyz::run_read(out, seed, &tier),
         other => { eprintln!("unknown stream {}", other); std::process::exit(2); }
     }
-    out.flush();
 }
